@@ -18,8 +18,17 @@ try:
     EB_TABLE_STATUS = translate_c18.generate(core.REPO, os.path.join(core.COQ, "gen"))
 except Exception as _ex:  # the generator itself broke: same fallback as an unparseable source
     EB_TABLE_STATUS = "unparsed generator-failed: %s" % str(_ex)[:200]
+# round 3: the pure bodies of rational/src/simplify.rs (is_simpler_than, one iteration of the loops of
+# farey_neighbors and Repr::simplest_in with their start values and assertions, the step of next_up/down,
+# the selection of nearest) and the order of Sign -> coq/gen/SimplifyGen.v; proved equal to the as-is models
+# in Ratio/SimplifyGenProof.v (C18_*_regenerated).
+try:
+    import translate_c18_r3
+    SIMPLIFY_GEN_STATUS = translate_c18_r3.generate(core.REPO, os.path.join(core.COQ, "gen"))
+except Exception as _ex:
+    SIMPLIFY_GEN_STATUS = "unparsed generator-failed: %s" % str(_ex)[:200]
 
-# A run against a scratch checkout (VERIF_REPO, seeded-change experiments) must not leave the table of
+# A run against a scratch checkout (VERIF_REPO, seeded-change experiments) must not leave the fragments of
 # that checkout in the tree for other builds: regenerate from /repo when the process ends.
 if os.path.realpath(core.REPO) != os.path.realpath("/repo"):
     import atexit
@@ -27,6 +36,7 @@ if os.path.realpath(core.REPO) != os.path.realpath("/repo"):
     def _restore_table():
         try:
             translate_c18.generate("/repo", os.path.join(core.COQ, "gen"))
+            translate_c18_r3.generate("/repo", os.path.join(core.COQ, "gen"))
         except Exception:
             pass
 
@@ -35,12 +45,19 @@ if os.path.realpath(core.REPO) != os.path.realpath("/repo"):
 
 def extra_phase(tier, seed, exes, oracle):
     word = EB_TABLE_STATUS.split(" ", 1)[0]
+    word3 = SIMPLIFY_GEN_STATUS.split(" ", 1)[0]
     return {
         "evaluations": 0,
-        "hist": {"translator_c18:ErrorBoundsTable:" + word: 1},
+        "hist": {"translator_c18:ErrorBoundsTable:" + word: 1, "translator_c18_r3:SimplifyGen:" + word3: 1},
         "nontrivial": [],
         "samples": [{"fragment": "coq/gen/ErrorBoundsTable.v (tools/translate_c18.py from float/src/round.rs)", "status": EB_TABLE_STATUS,
-                     "tied_by": "C18_error_bounds_table" if word == "ok" else "correspondence run only (source not parsed; committed copy marked STALE)"}],
+                     "tied_by": "C18_error_bounds_table" if word == "ok" else "correspondence run only (source not parsed; committed copy marked STALE)"},
+                    {"fragment": "coq/gen/SimplifyGen.v (tools/translate_c18_r3.py from rational/src/simplify.rs, base/src/sign.rs)",
+                     "status": SIMPLIFY_GEN_STATUS,
+                     "tied_by": "C18_is_simpler_than_regenerated, C18_sign_order_regenerated, C18_farey_step_regenerated, "
+                                "C18_farey_neighbors_regenerated, C18_cf_step_regenerated, C18_cf_loop_regenerated, "
+                                "C18_nudge_regenerated, C18_nearest_selection_regenerated" if word3 == "ok"
+                     else "correspondence run only (source not parsed; committed copy marked STALE)"}],
         "failures": [],
     }
 
